@@ -31,9 +31,27 @@ KNOWN_KEY = 'slice-stop-const-minus-one'
 # ------------------------------------------------------------------------------------------------------------------
 
 class RecBuilder(object):
-    """recording builder: `builder(sql)` returns the AST it is given"""
-    def __init__(self, dialect): self.dialect = dialect
+    """recording builder: `builder(sql)` returns the AST it is given.  Every other builder method or attribute a
+    STRING_SLICE / SUBSTR implementation may use (builder.SUBSTR, builder.LENGTH, greatest_func_name, …) is the REAL one of the
+    dialect's builder class, run with this object as `builder` (so nested ASTs stay ASTs and SQL text pieces stay visible)."""
+    def __init__(self, dialect, cls=SQLBuilder):
+        self.dialect = dialect; self._cls = cls; self.called = []
     def __call__(self, sql): return sql
+    def __getattr__(self, name):
+        if name.startswith('__'): raise AttributeError(name)
+        attr = getattr(self._cls, name)          # AttributeError of the real class propagates to the caller (and becomes a verdict there)
+        if callable(attr):
+            self.called.append(name)
+            return lambda *a, **kw: attr(self, *a, **kw)
+        return attr
+
+def text_pieces_to_node(r):
+    """SQL text pieces produced around builder(<ast>) by a real builder method -> the node they spell, when it is one the model knows"""
+    if isinstance(r, list):
+        if len(r) == 7 and r[0] == 'py_string_slice(' and [r[2], r[4], r[6]] == [', ', ', ', ')']: return ['PY_STRING_SLICE', r[1], r[3], r[5]]
+        if len(r) == 7 and r[0] == 'substr(' and [r[2], r[4], r[6]] == [', ', ', ', ')']: return ['SUBSTR', r[1], r[3], r[5]]
+        if len(r) == 5 and r[0] == 'substr(' and [r[2], r[4]] == [', ', ')']: return ['SUBSTR', r[1], r[3], None]
+    return ['UNEXPECTED', r]
 
 def drive(ctx, reqs):
     """batch call of the Lean driver; the binary is shared with concurrently running checks that may relink it, so a
@@ -111,7 +129,7 @@ def translator_tie(ctx):
                 meta.append(('mirror', d, recv, a, b, real))
     # the SQLite builder method (also regenerated from the source): SQL text pieces around builder(expr), builder(start), builder(stop)
     sq = sqlite_provider.SQLiteBuilder.STRING_SLICE
-    rb = RecBuilder('SQLite')
+    rb = RecBuilder('SQLite', sqlite_provider.SQLiteBuilder)
     for recv in recvs:
         for a, b in itertools.product(bounds, bounds):
             real = real_call(sq, rb, recv, arg_py(a), arg_py(b))
@@ -259,17 +277,17 @@ def translate(E, src, env):
     return q, t
 
 def expand(provider_name, db, node):
-    """what the dialect's REAL builder method makes of a translator node (recording builder)"""
+    """what the dialect's REAL builder method makes of a translator node (recording builder); an exception escaping from the
+    real code is part of the answer (['RAISED', class, message]) — it becomes a divergence where the answer is compared"""
     cls = db.provider.sqlbuilder_cls
-    rb = RecBuilder(db.provider.dialect)
+    rb = RecBuilder(db.provider.dialect, cls)
     if isinstance(node, list) and node and node[0] == 'STRING_SLICE':
-        r = norm(cls.STRING_SLICE(rb, node[1], node[2], node[3]))
-        if db.provider.dialect == 'SQLite':
-            # SQLiteBuilder.STRING_SLICE returns SQL text pieces around builder(expr), builder(start), builder(stop)
-            if len(r) == 7 and r[0] == 'py_string_slice(' and r[2] == ', ' and r[4] == ', ' and r[6] == ')':
-                return ['PY_STRING_SLICE', r[1], r[3], r[5]]
-            return ['UNEXPECTED', r]
-        return r
+        try:
+            r = norm(cls.STRING_SLICE(rb, node[1], node[2], node[3]))
+        except Exception as e:
+            return ['RAISED', type(e).__name__, str(e)[:120]]
+        if r and isinstance(r[0], str) and r[0].isupper(): return r      # an AST (generic path: `return builder(sql)`)
+        return text_pieces_to_node(r)                                      # SQL text pieces (SQLite path)
     return node
 
 class Suspects(object):
@@ -337,6 +355,13 @@ def run_provider(ctx, provider, suspects, failures):
     for a in consts[:1] + [c for c in consts if c[0] in ('0', '1', '-1', '-2')]:
         for b in consts[:1] + [c for c in consts if c[0] in ('0', '1', '-1', '-2')]:
             grid.append((RECVS[0], a, b))
+    # stop < start, equal bounds, bounds beyond the length — as constants, as parameters and mixed — executed end to end
+    cby = {c[0]: c for c in consts}
+    for x, y in [(3, 1), (2, 2), (0, 0), (5, 9), (9, 5), (9, 9), (3, 0), (1, 9), (2, 1), (5, 3), (-1, -4), (-2, -2), (-9, -4), (-4, -9), (3, -9), (-9, 2)]:
+        grid.append((RECVS[0], cby[str(x)], cby[str(y)]))
+        grid.append((RECVS[0], var_bound('x', x), var_bound('y', y)))
+        grid.append((RECVS[0], cby[str(x)], var_bound('y', y)))
+        grid.append((RECVS[0], var_bound('x', x), cby[str(y)]))
     grid.append((RECVS[0], var_bound('x', 0), var_bound('y', -1)))
     grid.append((RECVS[0], var_bound('x', 0), var_bound('x', 0)))
     grid.append((RECVS[0], var_bound('x', -1), var_bound('x', -1)))
@@ -387,8 +412,14 @@ def run_provider(ctx, provider, suspects, failures):
         model_meta.append((kind, recv, a, b, src, real_node, real_sql, real_fixed))
         # ---- oracle
         if provider == 'sqlite':
-            with db_session:
-                got = dict(q[:])
+            try:
+                with db_session:
+                    got = dict(q[:])
+            except Exception as e:
+                ctx.violation("a well-typed string subscript query raises on real SQLite instead of computing Python's result",
+                              {'query': 'select(%s)' % src, 'vars': {k: v for k, v in env.items() if k not in ('nv', 'sv')}}, observed='%s: %s' % (type(e).__name__, str(e)[:160]),
+                              expected='rows of (id, Python value)', key='sqlite:execute-raises:%s:%s' % (type(e).__name__, src))
+                continue
             for r in rows:
                 s = recv[2](r)
                 if kind == 'slice':
@@ -529,7 +560,10 @@ def ast_grid(ctx, suspects, failures):
                 if (i is None and ka == 'e') or (j is None and kb == 'e'): continue
                 st = None if i is None else (['VALUE', i] if ka == 'c' else ['COLUMN', 'e.k'])
                 sp = None if j is None else (['VALUE', j] if kb == 'c' else ['COLUMN', 'e.m'])
-                sql = norm(SQLBuilder.STRING_SLICE(rb, ['COLUMN', 'e.name'], st, sp))
+                try:
+                    sql = norm(SQLBuilder.STRING_SLICE(rb, ['COLUMN', 'e.name'], st, sp))
+                except Exception as e:
+                    ctx.divergence('the real STRING_SLICE raises on well-typed bounds', [d, ka, kb, i, j], model='an AST', impl=type(e).__name__ + ': ' + str(e)[:100]); continue
                 for s in strings:
                     reqs.append({'op': 'eval', 'dialect': d, 'ast': sql, 'cols': {'e.name': None if (d == 'Oracle' and s == '') else s, 'e.k': i, 'e.m': j}})
                     meta.append((d, ka, kb, s, i, j))
@@ -643,7 +677,7 @@ def repeat_oracle(ctx):
     rng = ctx.rng
     db, G, S, data = make_repeat_db(rng, ctx)
     pairs = [(0, 2), (1, 3), (1, 4), (2, 5), (-2, 10), (-3, 7), (-3, -1), (-4, -2), (2, -4), (1, -1), (None, 3), (None, 2), (2, None), (3, None), (6, 8), (0, 2),
-             (0, -1), (None, -1), (1, -1), (None, None), (1, 3)]
+             (0, -1), (None, -1), (1, -1), (None, None), (1, 3), (3, 1), (2, 2), (9, 5), (5, 9), (7, 12), (4, 1), (0, 0)]
     singles = [2, 5, 3, -3, -1, 4, 1, None, 0, -2, 2, 7, -7, 1]
     idx = [0, 1, 3, -1, -2, 2, 0, -3, 1]
     stale = []; model_reqs = []; model_meta = []
